@@ -23,6 +23,10 @@ def gen(rng, tier):
         else:
             s = ('r', [G.rand_sig(rng, rng.choice([0, 1, 2, 3])) for _ in range(rng.randint(1, 4))])
             yield G.case_ser("--", big, pos, "body", G.rand_val(rng, s, 4), cmd="rt")
+    for w in G.wide_values():
+        yield G.case_ser("--", rng.random() < 0.5, rng.choice([0, 3]), "dyn", w, cmd="rt")
+        if w[0] == 'r':
+            yield G.case_ser("--", rng.random() < 0.5, rng.choice([0, 5]), "body", w, cmd="rt")
     import itertools
     for k in range(1, 4 if tier == "quick" else 5):
         for w in itertools.product("a(v{", repeat=k):
